@@ -10,6 +10,8 @@ def history(rng):
     lines = ['new 0']; kinds = []
     names = apihist.uniq_names(rng, rng.choice([1, 2, 3]), pad=False)
     chans = apihist.uniq_names(rng, rng.choice([0, 1, 2]), b'c', pad=False)
+    # a data set that starts WITHOUT points (channels only): its first point column arrives when frames are already stored
+    if chans and rng.random() < 0.4: names = []; kinds.append('starts-without-points')
     for n in names: lines.append('point 0 ' + hx(n))
     for c in chans: lines.append('analog 0 ' + hx(c))
     lines += ['P.new x52415445 x', 'P.set F 0 1 42c80000', 'param 0 x504f494e54']
@@ -26,11 +28,11 @@ def history(rng):
             lines.append('frameR 0 %s 0' % tgt); kinds.append('hand-over-same-frame')
             nstored = nstored + 1 if tgt == '-' else max(nstored, int(tgt) + 1)
         elif r < 0.45:
-            lines.append('F.mutpt 0 %d %s' % (rng.randrange(len(names)), apihist.rf(rng))); kinds.append('caller-mutates-point')
+            if names: lines.append('F.mutpt 0 %d %s' % (rng.randrange(len(names)), apihist.rf(rng))); kinds.append('caller-mutates-point')
         elif r < 0.55 and chans:
             lines.append('F.mutch 0 %d %d %s' % (rng.randrange(nsub), rng.randrange(len(chans)), apihist.rf(rng))); kinds.append('caller-mutates-channel')
         elif r < 0.62:
-            lines.append('F.copy 1 0'); lines.append('F.mutpt 1 0 ' + apihist.rf(rng)); lines.append('frameR 0 - 1'); kinds.append('copy-then-mutate-then-hand-over'); nstored += 1
+            lines.append('F.copy 1 0'); lines.append(('F.mutpt 1 0 ' if names else 'F.mutch 1 0 0 ') + apihist.rf(rng)); lines.append('frameR 0 - 1'); kinds.append('copy-then-mutate-then-hand-over'); nstored += 1
         elif r < 0.66:
             lines.append('F.set 0 ' + lit().text()); kinds.append('caller-refills')
         elif r < 0.70 and nstored:
@@ -43,6 +45,16 @@ def history(rng):
             lines.append('D.mutpt 0 %d %d %s' % (rng.randrange(nstored), rng.randrange(max(1, len(names))), apihist.rf(rng))); kinds.append('edit-stored-frame-in-place')
         elif r < 0.86 and nstored and chans:
             lines.append('D.mutch 0 %d %d %d %s' % (rng.randrange(nstored), rng.randrange(nsub), rng.randrange(len(chans)), apihist.rf(rng))); kinds.append('edit-stored-channel-in-place')
+        elif r < 0.90 and nstored and nstored <= 12:
+            # a point column handed over as CALLER frames (one register per stored frame, or one register for all of them), which
+            # the caller then goes on editing: the stored frames must keep what they were given
+            n = apihist.uniq_names(rng, 1, b'nq', False)[0]
+            regs = [2] * nstored if rng.random() < 0.5 else list(range(2, 2 + nstored))
+            for k in sorted(set(regs)): lines += ['F.new %d' % k, 'F.set %d %s' % (k, rand_lit(rng, [n], [], 0).text())]
+            lines.append('pointcolR 0 %d %s' % (nstored, ' '.join(str(k) for k in regs))); kinds.append('point-column-of-caller-frames'); names = names + [n]
+            lines.append('snap 0')
+            lines.append('F.mutpt %d 0 %s' % (regs[-1], apihist.rf(rng))); lines.append('snap 0')
+            lines.append('F.set 0 ' + lit().text())
         elif r < 0.93 and nstored:
             n = apihist.uniq_names(rng, 1, b'np', False)[0]
             lines.append('point 0 ' + hx(n)); kinds.append('add-point-column'); names = names + [n]
@@ -96,7 +108,7 @@ def run(rep, work, rng, tier):
             elif cmd in ('F.mutpt', 'F.mutch', 'F.set', 'F.copy', 'F.addpt', 'F.addch', 'F.fromdata'): pending = ('caller', ln[:60])
             elif cmd in ('D.mutpt', 'D.mutch') and out and out[0] == 'ok': pending = ('inplace', ln[:60])
             elif cmd in ('point', 'analog') and out and out[0] == 'ok' and last: pending = ('column', cmd)
-            elif cmd in ('frameR',): pending = None
+            elif cmd in ('frameR', 'pointcolR', 'analogcolR', 'frame', 'param'): pending = None
     rep.coverage.update(dict(evaluations=sum(kinds.values()), distinct_nontrivial=len(set(l for _, ls in cases for l in ls if not l.startswith(('snap', 'F.show')))),
         rule='histories in which one caller frame is handed over several times (append and indexed), copied (shared handles), mutated between submissions and after, refilled, stored frames edited in place through the non-const accessors, point/channel columns added afterwards; after every step the stored frames and the caller frame are compared with the handle-heap model, and three direct checks run on the C++ snapshots alone (caller edits change nothing stored; an in-place edit changes one frame; a column is added once); distinct = distinct operation lines',
         samples=[cases[0][1][:14]], op_kinds=kinds, direct_checks=checked, disagreements=nd, oracle_failures=bad))
